@@ -908,6 +908,14 @@ def defaults_match(F, R, rule='B.C06.defaults'):
             for f, op in zip(s['rv']['fields'], s['rv']['ops']):
                 d, _ = origin_def(b, op)
                 if not (d and d[0] == 'call' and (callee_path(d[2]) or '') == P + '::new' and len(d[2]['args']) == 2):
+                    # through a private forwarding helper spliced in (`parameter(value, DEFAULT)`): read the description instead
+                    nm_, ar_ = parse_term(describe(b, op, depth=6, at=bb))
+                    m2 = re.search(r'^const .*DEFAULT_([A-Z0-9_]+)$', ar_[1]) if nm_ == P + '::new' and ar_ and len(ar_) == 2 else None
+                    if m2:
+                        n += 1
+                        R.check(m2.group(1).lower() == f.lower(), rule, '%s.%s' % (s['rv'].get('adt', '?').split('::')[-1], f),
+                                '%s initialises the parameter `%s` with the fallback %s (the default of another setting)' % (b.path, f, ar_[1]),
+                                detail={'field': f, 'default': ar_[1]}, where=b.where(bb))
                     continue
                 dflt = d[2]['args'][1]
                 d2 = None
@@ -917,6 +925,10 @@ def defaults_match(F, R, rule='B.C06.defaults'):
                         dflt = d2[1]
                 name = dflt.get('def') if isinstance(dflt, dict) else None
                 m = re.search(r'DEFAULT_([A-Z0-9_]+)$', name or '')
+                if not m:
+                    nm_, ar_ = parse_term(describe(b, op, depth=6, at=bb))
+                    m = re.search(r'^const .*DEFAULT_([A-Z0-9_]+)$', ar_[1]) if nm_ == P + '::new' and ar_ and len(ar_) == 2 else None
+                    name = ar_[1] if m else name
                 if not m:
                     continue
                 n += 1
